@@ -396,6 +396,8 @@ func RegisterNewHelpers(p *Prog, pinned *Pinned) {
 	seamSites := registerSeams(p)
 	registerSoleImplInterfaces(p, pinned)
 	registerSoleSites(p)
+	registerGroupInits(p)
+	registerMemoFields(p)
 	// named module types with a value converted to an interface somewhere in module code
 	boxedTypes := map[*types.Named]bool{}
 	for _, fn := range p.Funcs {
@@ -1343,6 +1345,206 @@ func registerSoleSites(p *Prog) {
 		}
 	}
 	helperMu.Unlock()
+}
+
+// groupInit: for a field of a struct type the module already had whose own type is a new struct
+// type (a configuration bundle: `persistentStore{cfg storeConfig}`), the one value ever stored
+// into it — by the literal that creates the outer value — provided nothing else writes the
+// field or anything inside it.
+var groupInit = map[*types.Var]ssa.Value{}
+
+func registerGroupInits(p *Prog) {
+	stores := map[*types.Var][]ssa.Value{}
+	spoiled := map[*types.Var]bool{}
+	fieldVar := func(fa *ssa.FieldAddr) *types.Var {
+		st := structOf(fa.X.Type())
+		if st == nil || fa.Field >= st.NumFields() {
+			return nil
+		}
+		f := st.Field(fa.Field)
+		if IsNewType(fa.X.Type()) || !isModType(fa.X.Type()) {
+			return nil
+		}
+		if !IsNewType(f.Type()) || structOf(f.Type()) == nil {
+			return nil
+		}
+		if _, isPtr := f.Type().Underlying().(*types.Pointer); isPtr {
+			return nil
+		}
+		return f
+	}
+	for _, fn := range p.AllFuncs {
+		if !p.IsModFunc(fn) {
+			continue
+		}
+		EachInstrRaw(fn, func(i ssa.Instruction) {
+			fa, ok := i.(*ssa.FieldAddr)
+			if !ok {
+				return
+			}
+			f := fieldVar(fa)
+			if f == nil {
+				return
+			}
+			for _, r := range Refs(fa) {
+				switch u := r.(type) {
+				case *ssa.Store:
+					if u.Addr == ssa.Value(fa) {
+						if _, inLit := fa.X.(*ssa.Alloc); inLit {
+							stores[f] = append(stores[f], u.Val)
+						} else {
+							spoiled[f] = true
+						}
+					}
+				case *ssa.FieldAddr:
+					// a field of the bundle: reading it is fine, writing it is not
+					for _, rr := range Refs(u) {
+						if st, isSt := rr.(*ssa.Store); isSt && st.Addr == ssa.Value(u) {
+							spoiled[f] = true
+						} else if _, isLd := rr.(*ssa.UnOp); !isLd {
+							spoiled[f] = true
+						}
+					}
+				case *ssa.UnOp:
+				default:
+					spoiled[f] = true // its address is taken or handed on
+				}
+			}
+		})
+	}
+	helperMu.Lock()
+	for f, vs := range stores {
+		if len(vs) == 1 && !spoiled[f] {
+			groupInit[f] = vs[0]
+			p.regGroup = append(p.regGroup, f)
+		}
+	}
+	helperMu.Unlock()
+}
+
+// memoStore: for a field that a struct type of the pinned tree did not have (closeErr next to
+// closeOnce) and that exactly one instruction in the module stores to: that store.
+var memoStore = map[*types.Var]*ssa.Store{}
+
+func isNewFieldOfPinnedStruct(t types.Type, idx int) (*types.Var, bool) {
+	st := structOf(t)
+	if st == nil || idx >= st.NumFields() || IsNewType(t) || !isModType(t) {
+		return nil, false
+	}
+	for {
+		pt, ok := t.Underlying().(*types.Pointer)
+		if !ok {
+			break
+		}
+		t = pt.Elem()
+	}
+	named, ok := t.(*types.Named)
+	if !ok {
+		return nil, false
+	}
+	pn := pinnedTable()
+	if pn.Pkgs == nil {
+		return nil, false
+	}
+	pp := pn.Pkgs[Rel(named.Obj().Pkg().Path())]
+	if pp == nil {
+		return nil, false
+	}
+	fp, ok := pp.Types[objName(named.Obj())]
+	if !ok {
+		return nil, false
+	}
+	f := st.Field(idx)
+	for _, pf := range fp.Fields {
+		if strings.HasPrefix(pf, objName(f)+" ") {
+			return nil, false
+		}
+	}
+	return f, true
+}
+
+func registerMemoFields(p *Prog) {
+	stores := map[*types.Var][]*ssa.Store{}
+	spoiled := map[*types.Var]bool{}
+	for _, fn := range p.AllFuncs {
+		if !p.IsModFunc(fn) {
+			continue
+		}
+		EachInstrRaw(fn, func(i ssa.Instruction) {
+			fa, ok := i.(*ssa.FieldAddr)
+			if !ok {
+				return
+			}
+			f, isNew := isNewFieldOfPinnedStruct(fa.X.Type(), fa.Field)
+			if !isNew {
+				return
+			}
+			for _, r := range Refs(fa) {
+				switch u := r.(type) {
+				case *ssa.Store:
+					if u.Addr == ssa.Value(fa) {
+						stores[f] = append(stores[f], u)
+					}
+				case *ssa.UnOp:
+				default:
+					spoiled[f] = true
+				}
+			}
+		})
+	}
+	helperMu.Lock()
+	for f, ss := range stores {
+		if len(ss) == 1 && !spoiled[f] {
+			memoStore[f] = ss[0]
+			p.regMemo = append(p.regMemo, f)
+		}
+	}
+	helperMu.Unlock()
+}
+
+// memoValue: ld loads a field its struct gained after the pinned tree, written by one store
+// that every path to the load has passed (r.once.Do(func() { r.err = r.finish() }); return
+// r.err): the value stored.
+func memoValue(ld *ssa.UnOp) ssa.Value {
+	if ld.Op != token.MUL {
+		return nil
+	}
+	fa, ok := ld.X.(*ssa.FieldAddr)
+	if !ok {
+		return nil
+	}
+	st := structOf(fa.X.Type())
+	if st == nil || fa.Field >= st.NumFields() {
+		return nil
+	}
+	helperMu.RLock()
+	store := memoStore[st.Field(fa.Field)]
+	helperMu.RUnlock()
+	if store == nil {
+		return nil
+	}
+	if TopFunc(store.Parent()) != TopFunc(ld.Parent()) {
+		return nil
+	}
+	// same object: both addressed through the receiver / the same path
+	if sb, _, ok2 := FieldAddrOf(store.Addr); !ok2 || PathOf(sb) == "" || PathOf(sb) != PathOf(fa.X) {
+		return nil
+	}
+	if !Dominates(store, ld) {
+		return nil
+	}
+	return store.Val
+}
+
+// groupInitOf: the value the grouping field addressed by fa was created with, if it is unique.
+func groupInitOf(fa *ssa.FieldAddr) ssa.Value {
+	st := structOf(fa.X.Type())
+	if st == nil || fa.Field >= st.NumFields() {
+		return nil
+	}
+	helperMu.RLock()
+	defer helperMu.RUnlock()
+	return groupInit[st.Field(fa.Field)]
 }
 
 // soleSiteArg: the argument passed for prm at the only call site of its function.
